@@ -312,3 +312,78 @@ CHECKS["C20"] = make_check("C20", c20_plans,
     "the C09 decision-table transitions and random multi-log histories of mixed verdicts; a recording MetricFactory (installed before the first witness.New in a dedicated "
     "process) is read after every step for every log and judged by CountersTrue (attempt, success, invalid-consistency, inconsistent-checkpoints; nothing else moves); "
     "distinct = distinct (pre-state, request, verdict) of update steps", any_update)
+
+# ----------------------------------------------------------------------------- C16
+
+ODD = ["empty", "trailing-slash", "double-slash", "dotdot-alias", "dot-alias", "slash-inside", "encoded-slash", "truncated", "prefix", "extended",
+       "uppercase", "nonascii", "space", "wildcard", "star", "long", "dotdot-escape"]
+
+
+def odd_runs(c, g, rng):
+    """histories over several logs with reads of known, unknown and syntactically odd ids after every few steps"""
+    init = {l: {"none": True} for l in sorted(c["Logs"])}
+    runs = []
+    logs = sorted(c["Logs"])
+    for j, (run, final) in enumerate(walks(g, init, 60, 12, rng, prefix="odd", want=want_accept)):
+        steps = []
+        for s_ in run["steps"]:
+            steps.append(s_)
+            if rng.random() < 0.4:
+                steps.append({"op": "getodd", "log": rng.choice(logs), "cls": rng.choice(ODD)})
+            if rng.random() < 0.3:
+                steps.append({"op": "get", "log": rng.choice(logs + ["unknown"])})
+        for cls in ODD:
+            steps.append({"op": "getodd", "log": logs[j % len(logs)], "cls": cls})
+        for l in logs + ["unknown"]:
+            steps.append({"op": "get", "log": l})
+        steps.append({"op": "getlogs"})
+        runs.append({"id": "odd%d" % j, "steps": steps})
+    return runs
+
+
+def c16_plans(tier):
+    if tier == "quick":
+        return [Plan("MC_Witness(hist)", H(tier, BadKinds={"random", "flip"}), nwalks=150, depth=20, reads=True, http=True, stores=Q_ST, embeds=("id",), want=want_accept),
+                Plan("MC_Witness2(shared key)", W2(tier), keyof=KEYOF, edges=False, nwalks=100, depth=20, reads=True, http=True, stores=("inmem", "sqlfile"), embeds=("id",),
+                     extra_runs=odd_runs, want=want_accept)]
+    return [Plan("MC_Witness(hist)", H(tier), nwalks=1500, depth=40, reads=True, http=True, stores=T_ST, embeds=("id", "mixed"), want=want_accept),
+            Plan("MC_Witness2(3 logs)", W2(tier), keyof=KEYOF, edges=True, nwalks=1000, depth=30, reads=True, http=True, stores=T_ST, embeds=("id",),
+                 extra_runs=odd_runs, want=want_accept)]
+
+
+CHECKS["C16"] = make_check("C16", c16_plans,
+    "histories of accepted and refused updates over 1..3 logs (ids from the repository's own origin-to-id function) with the registered mux handlers and the bundled HTTP client "
+    "in the loop: after updates, GET checkpoint for known / unknown ids, GET log list, and 17 classes of syntactically odd ids (empty, slashes, dot segments, encoded, truncated, "
+    "prefix, extended, non-ASCII, very long ...), first response and response after redirects; judged by ReadExact / LogListExact / OddId; every update step also checks the "
+    "storage log list (a refused first submission creates no entry); distinct = distinct read or update steps by (state, request, outcome)",
+    lambda e: e.get("e") in ("get", "getlogs", "getodd", "update"))
+
+# ----------------------------------------------------------------------------- C12 (isolation half; the identity half is in the omni family)
+
+def interleave_runs(c, g, rng, n=150, depth=24):
+    """a TLC-generated history over several logs (phase 0) and, in later phases on fresh witnesses with the same keys
+    and origins, the sub-history of each log alone"""
+    init = {l: {"none": True} for l in sorted(c["Logs"])}
+    runs = []
+    for j, (run, final) in enumerate(walks(g, init, n, depth, rng, prefix="il", want=want_accept)):
+        steps = [s_ for s_ in run["steps"] if s_["op"] == "update" and s_["log"] in c["Logs"]]
+        phases = [steps]
+        for l in sorted(c["Logs"]):
+            phases.append([s_ for s_ in steps if s_["log"] == l])
+        runs.append({"id": "il%d" % j, "phases": phases})
+    return runs
+
+
+def c12_plans(tier):
+    if tier == "quick":
+        return [Plan("MC_Witness2(shared key)", W2(tier, MaxSize=2, Olds={0, 1, 2, 3}, BadKinds={"random"}), keyof=KEYOF, edges=True, max_edges=15000,
+                     stores=("inmem", "sqlmem"), embeds=("id",), extra_runs=interleave_runs)]
+    return [Plan("MC_Witness2(3 logs)", W2(tier, MaxSize=2, Olds={0, 1, 2, 3}, BadKinds={"random"}), keyof=KEYOF, edges=True, max_edges=120000,
+                 stores=T_ST, embeds=("id", "pow2"), extra_runs=lambda c, g, rng: interleave_runs(c, g, rng, 1500, 40))]
+
+
+CHECKS["C12"] = make_check("C12", c12_plans,
+    "isolation half of C12: every transition of the multi-log model (logs sharing a key) judged by Isolation (an update touches only the log it names; per-log byte snapshots), and "
+    "TLC-generated interleaved histories over 2..3 logs followed, on fresh witnesses with the same keys and origins, by each log's sub-history alone: per-log abstract state and a digest of "
+    "text + log signature + deterministic witness signature must be equal (AloneEqualsInterleaved). The identity half (one id function on every interface, duplicate ids refused) is checked by "
+    "the start-up family (see level_note); distinct = distinct update steps by (state, request, verdict)", any_update)
